@@ -91,12 +91,19 @@ def label_maps(case, n, nA):
 
 
 def build(case, spec, slab, alab):
-    """msdm MDP object for one stage, in the representation the case asks for"""
+    """msdm MDP object for one stage, in the representation the case asks for.
+    Returns (mdp, sid, aid, snap, edit): snap() = repr of the caller's data as the MDP currently defines it,
+    edit(spec2) rewrites the SAME MDP object in place into another problem (memoised distribution objects are
+    cleared and refilled, reward dict / absorbing list mutated, discount attribute reassigned)."""
     from msdm.core.mdp.quickmdp import QuickTabularMDP, QuickMDP
     from msdm.core.mdp.tabularmdp import TabularMarkovDecisionProcess
     from msdm.core.distributions import DictDistribution
     from msdm.core.distributions.dictdistribution import UniformDistribution, DeterministicDistribution
     form = case.get("form", "quick")
+    scratch = bool(case.get("scratch_dists"))
+    inplace = bool(case.get("edit_in_place"))
+    if scratch or inplace:
+        form = "quickmdp" if form == "quickmdp" else "quick"      # plain DictDistributions, mutable
     sid = {l: i for i, l in enumerate(slab)}
     aid = {l: i for i, l in enumerate(alab)}
     order = (case.get("labels") or {}).get("a_order")
@@ -109,64 +116,119 @@ def build(case, spec, slab, alab):
         if rich and len(pos) > 1 and all(p == pos[0][1] for _, p in pos) and abs(pos[0][1] * len(pos) - 1) < 1e-15:
             return UniformDistribution([x for x, _ in pos])
         return DictDistribution(dict(pos))
-    trans = {}
-    for k, row in spec["trans"].items():
-        s, a = map(int, k.split(","))
-        trans[(s, a)] = mkdist([(slab[ns], fl(p)) for ns, p in row])
-    rew = {}
-    for k, r in spec["reward"].items():
-        s, a, ns = map(int, k.split(","))
-        rew[(s, a, ns)] = fl(r)
-        if case.get("int_rewards") and rew[(s, a, ns)] == int(rew[(s, a, ns)]):
-            rew[(s, a, ns)] = int(rew[(s, a, ns)])      # integer-typed rewards where floats are usual
-    acts = []
-    for s in range(spec["n"]):
-        ids = list(spec["actions"][s])
-        if order and sorted(order[s]) == sorted(ids):
-            ids = list(order[s])
-        labs = [alab[a] for a in ids]
-        acts.append(labs if rich else tuple(labs))
-    if rich and case.get("shared_actions") and all(x == acts[0] for x in acts):
-        acts = [acts[0]] * len(acts)              # ONE list object handed out for every state
-    absorbing = list(spec["absorbing"])
-    init_pairs = [(slab[s], fl(p)) for s, p in spec["init"]]
-    init = mkdist(init_pairs)
-    gamma = fl(spec["gamma"])
-    if case.get("int_params") and gamma == int(gamma):
-        gamma = int(gamma)
-    nsd = lambda s, a: trans[(sid[s], aid[a])]
+    pairs, trans, rew, acts, absorbing = {}, {}, {}, [], []
+    box = {"init_pairs": None, "init": None, "gamma": None}
+
+    def load(sp, first):
+        pairs.clear()
+        for k, row in sp["trans"].items():
+            s, a = map(int, k.split(","))
+            pairs[(s, a)] = [(slab[ns], fl(p)) for ns, p in row]
+            if first or (s, a) not in trans or not isinstance(trans[(s, a)], dict):
+                trans[(s, a)] = mkdist(pairs[(s, a)])
+            else:                                   # the memoised object keeps its identity, its contents change
+                dict.clear(trans[(s, a)])
+                dict.update(trans[(s, a)], dict(pairs[(s, a)]))
+        rew.clear()
+        for k, r in sp["reward"].items():
+            s, a, ns = map(int, k.split(","))
+            rew[(s, a, ns)] = fl(r)
+            if case.get("int_rewards") and rew[(s, a, ns)] == int(rew[(s, a, ns)]):
+                rew[(s, a, ns)] = int(rew[(s, a, ns)])      # integer-typed rewards where floats are usual
+        new_acts = []
+        for s in range(sp["n"]):
+            ids = list(sp["actions"][s])
+            if order and sorted(order[s]) == sorted(ids):
+                ids = list(order[s])
+            labs = [alab[a] for a in ids]
+            new_acts.append(labs if rich else tuple(labs))
+        if rich and case.get("shared_actions") and all(x == new_acts[0] for x in new_acts):
+            new_acts = [new_acts[0]] * len(new_acts)              # ONE list object handed out for every state
+        acts[:] = new_acts
+        absorbing[:] = list(sp["absorbing"])
+        box["init_pairs"] = [(slab[s], fl(p)) for s, p in sp["init"]]
+        if first or not isinstance(box["init"], dict):
+            box["init"] = mkdist(box["init_pairs"])
+        else:
+            dict.clear(box["init"])
+            dict.update(box["init"], dict(box["init_pairs"]))
+        g = fl(sp["gamma"])
+        if case.get("int_params") and g == int(g):
+            g = int(g)
+        box["gamma"] = g
+    load(spec, True)
+    scratch_t, scratch_i = DictDistribution({}), DictDistribution({})
+
+    def nsd(s, a):
+        if scratch:        # ONE distribution object for every call, rewritten each time
+            dict.clear(scratch_t)
+            dict.update(scratch_t, dict(pairs[(sid[s], aid[a])]))
+            return scratch_t
+        return trans[(sid[s], aid[a])]
+
+    def isd():
+        if scratch:
+            dict.clear(scratch_i)
+            dict.update(scratch_i, dict(box["init_pairs"]))
+            return scratch_i
+        return box["init"]
     rwf = lambda s, a, ns: rew.get((sid[s], aid[a], sid[ns]), 0.0)
     if form == "class":
         class HandMDP(TabularMarkovDecisionProcess):
-            discount_rate = gamma
+            discount_rate = box["gamma"]
             def next_state_dist(self, s, a): return nsd(s, a)
             def reward(self, s, a, ns): return rwf(s, a, ns)
             def actions(self, s): return acts[sid[s]]
-            def initial_state_dist(self): return init
+            def initial_state_dist(self): return isd()
             def is_absorbing(self, s): return absorbing[sid[s]]
         mdp = HandMDP()
     else:
         cls = QuickMDP if form == "quickmdp" else QuickTabularMDP
         kw = dict(next_state_dist=nsd, reward=rwf, actions=lambda s: acts[sid[s]],
-                  is_absorbing=lambda s: absorbing[sid[s]], discount_rate=gamma)
-        pos = [x for x, p in init_pairs if p > 0]
-        if form == "quick_init_state" and len(init_pairs) == 1 and len(pos) == 1:
+                  is_absorbing=lambda s: absorbing[sid[s]], discount_rate=box["gamma"])
+        pos = [x for x, p in box["init_pairs"] if p > 0]
+        if form == "quick_init_state" and len(box["init_pairs"]) == 1 and len(pos) == 1 and not inplace:
             kw["initial_state"] = pos[0]          # deterministic variant; the label may be falsy
         else:
-            kw["initial_state_dist"] = init
+            kw["initial_state_dist"] = isd
         mdp = cls(**kw)
 
+    def edit(sp):
+        load(sp, False)
+        mdp.discount_rate = box["gamma"]
+
     def snap():
-        """the caller's objects the learner gets to see (persistent across calls): must never be mutated"""
+        """the caller's data as the MDP currently defines it: a learner must never change it"""
         def dd(d):
             if isinstance(d, dict):
                 return ("dict", tuple(dict.items(d)))
             if isinstance(d, DeterministicDistribution):
                 return ("det", d.value)
             return ("uni", tuple(d.support))
-        return repr((tuple(tuple(x) for x in acts), tuple((k, dd(v)) for k, v in trans.items()),
-                     tuple(rew.items()), dd(init), tuple(absorbing)))
-    return mdp, sid, aid, snap
+        return repr((tuple(tuple(x) for x in acts), tuple(sorted(pairs.items(), key=repr)),
+                     None if scratch else tuple((k, dd(v)) for k, v in trans.items() if k in pairs),
+                     tuple(rew.items()), tuple(box["init_pairs"]), None if scratch else dd(box["init"]), tuple(absorbing)))
+    return mdp, sid, aid, snap, edit
+
+
+class StatefulInitialQ:
+    """callable initial_q that is NOT a pure function: the k-th question about (s, a) since the last reset is answered
+    base[s][a] + k*delta, and every answer is logged.  The table must hold the value that was returned when the entry
+    was created, and each entry must be asked exactly once per table."""
+    def __init__(self, base, delta, sid, aid):
+        self.base, self.delta, self.sid, self.aid = base, delta, sid, aid
+        self.reset()
+
+    def reset(self):
+        self.count, self.log = {}, []
+
+    def __call__(self, s, a):
+        i, j = self.sid[s], self.aid[a]
+        k = self.count.get((i, j), 0)
+        self.count[(i, j)] = k + 1
+        v = self.base[i][j] + k * self.delta
+        self.log.append([i, j, fj(v)])
+        return v
 
 
 def num(case, x):
@@ -201,27 +263,44 @@ def one(case, pl):
     else:
         tbl = [[fl(x) for x in row] for row in iq["table"]]
         initial_q = lambda s, a: tbl[sid0[s]][aid0[a]]
+    stateful = None
+    if iq["kind"] == "stateful":
+        stateful = StatefulInitialQ(tbl, fl(iq["delta"]), sid0, aid0)
+        initial_q = stateful
     params = dict(episodes=int(case["episodes"]), step_size=num(case, case["alpha"]), rand_choose=num(case, case["eps"]),
                   softmax_temp=num(case, case["temp"]), initial_q=initial_q, seed=case["seed"])
+
+    def construct(iqv, **kw):
+        p = dict(params, initial_q=iqv)
+        if case.get("positional"):
+            # the documented order of the hyper-parameters (property side; not read from the implementation)
+            return cls(p["episodes"], p["step_size"], p["rand_choose"], p["softmax_temp"], p["initial_q"], p["seed"], **kw)
+        return cls(**p, **kw)
     # ONE learner object for all stages: train_on(A), train_on(B), train_on(A) ... (same labels, B possibly of a
     # different size); nothing learnt or cached on one problem may leak into the next result
-    learner = cls(event_listener_class=make_listener(td, kind), **params)
+    learner = construct(initial_q, event_listener_class=make_listener(td, kind))
     out, kept, built = [], [], {}
     for k_stage, spec in enumerate(stages):
         key = json.dumps(spec, sort_keys=True)
-        if key not in built or not case.get("reuse_mdp_object", True):
+        if case.get("edit_in_place") and built:
+            key = next(iter(built))                        # ONE MDP object, rewritten in place for this stage
+            built[key][4](spec)
+        elif key not in built or not case.get("reuse_mdp_object", True):
             built[key] = build(case, spec, slab, alab)     # same problem constructed again in this process
             if case.get("pretouch"):
                 try:    # a base object whose cached views were already used
                     built[key][0].state_list, built[key][0].action_list, built[key][0].transition_matrix
                 except BaseException:
                     pass
-        mdp, sid, aid, snap = built[key]
+        mdp, sid, aid, snap, _edit = built[key]
         _CTX["sid"], _CTX["aid"] = sid, aid
         before = (snap(), repr(tbl))
         if case["seed"] is None:
             random.seed(case.get("global_seed", 0))
+        if stateful is not None:
+            stateful.reset()
         res = learner.train_on(mdp)
+        iq_calls = list(stateful.log) if stateful is not None else None
         q = res.q_values
         keys = [k for k in dict.keys(q)]
         table = [[sid[s], [[aid[a], fj(v)] for a, v in dict.items(dict.__getitem__(q, s))]] for s in keys]
@@ -234,7 +313,8 @@ def one(case, pl):
         # twin: a second learner object of the same class, msdm's default listener, same MDP object
         if case["seed"] is None:
             random.seed(case.get("global_seed", 0))
-        twin = cls(**params).train_on(mdp)
+        twin_iq = StatefulInitialQ(tbl, fl(iq["delta"]), sid0, aid0) if stateful is not None else initial_q
+        twin = construct(twin_iq).train_on(mdp)
         tq = twin.q_values
         twin_table = {sid[s]: {aid[a]: v for a, v in dict.items(dict.__getitem__(tq, s))} for s in dict.keys(tq)}
         mine = {sid[s]: {aid[a]: v for a, v in dict.items(dict.__getitem__(q, s))} for s in keys}
@@ -249,7 +329,7 @@ def one(case, pl):
         kept.append((res, spec, sid, aid, first, mine))
         out.append({"episodes": res.event_listener_results, "keys": [sid[k] for k in keys], "table": table,
                     "keys_after_policy": keys_after, "policy_requery_ok": bool(requery_ok),
-                    "twin_ok": bool(twin_ok), "inputs_untouched": bool(inputs_untouched),
+                    "twin_ok": bool(twin_ok), "inputs_untouched": bool(inputs_untouched), "iq_calls": iq_calls,
                     "twin_detail": None if twin_ok else {"twin_table": {str(s): {str(a): fj(v) for a, v in r.items()} for s, r in twin_table.items()},
                                                           "twin_episode_rewards": [fj(x) for x in twin.event_listener_results.episode_rewards]},
                     "actions": [[aid[a] for a in mdp.actions(slab[s])] for s in range(spec["n"])]})
